@@ -143,7 +143,16 @@ def run_case(c):
         state.stop_training = bool(c.get("preset"))
         cbs_arg = [shared]
         h0 = phash(state)
+    if c.get("lib_cbs") and form != "nested_shared":
+        from qucumber.callbacks import EarlyStopping, MetricEvaluator
+        ev_ = MetricEvaluator(1, {"m": lambda s_, **kw_: 1.0})
+        lib = [ev_, EarlyStopping(1, 0.0, 1, ev_, "m")]
+        pos = {"first": 0, "last": len(cbs), "middle": len(cbs) // 2}[c["lib_cbs"]]
+        mixed = list(cbs[:pos]) + lib + list(cbs[pos:])
+        cbs_arg = tuple(mixed) if form == "tuple" else mixed
     kw = dict(epochs=E, pos_batch_size=B, starting_epoch=se, lr=0.1, k=1, callbacks=cbs_arg, time=c.get("time", False))
+    if c.get("sched"):
+        kw.update(scheduler=torch.optim.lr_scheduler.StepLR, scheduler_args={"step_size": 1, "gamma": 0.5})
     if c.get("nbs") is not None:
         kw["neg_batch_size"] = c["nbs"]
     if t != "positive":
@@ -211,7 +220,8 @@ def check_one(c):
     inner = inject is not None and 0 < inject // ncb < len(full) - 1
     return {"nontrivial": inner and nb >= 2 and (ncb >= 2 or c.get("box")),
             "labels": [f"type={c['type']}", f"ncb={ncb}"] + (["stop@" + full[inject // ncb][0]] if inject is not None else ["unstopped"]) +
-                      (["empty_range"] if se > E else []) + (["timer"] if c.get("time") else [])}
+                      (["empty_range"] if se > E else []) + (["timer"] if c.get("time") else []) + (["scheduler"] if c.get("sched") else []) +
+                      (["library_callbacks_in_list"] if c.get("lib_cbs") else [])}
 
 
 @st.composite
@@ -220,7 +230,10 @@ def sampled(draw, tier):
     c = {"type": draw(st.sampled_from(gen.TYPES)), "N": draw(st.integers(1, 6)), "B": draw(st.integers(1, 4)), "se": draw(st.integers(0, 3)),
          "E": draw(st.integers(0, 4)) if draw(st.integers(0, 9)) else draw(st.integers(9, 13)), "cbs": [draw(st.sampled_from(["class", "lambda"])) for _ in range(ncb)], "time": draw(st.booleans()),
          "seed": draw(st.integers(0, 2 ** 31 - 1)), "hooks_return": draw(st.booleans()), "nbs": draw(st.one_of(st.none(), st.integers(1, 6))),
-         "cb_form": draw(st.sampled_from(["list", "list", "tuple", "nested_shared"])), "fits": draw(st.sampled_from([1, 1, 1, 2, 3]))}
+         "cb_form": draw(st.sampled_from(["list", "list", "tuple", "nested_shared"])), "fits": draw(st.sampled_from([1, 1, 1, 2, 3])),
+         # other features used in the same run: a learning-rate scheduler; the library's own evaluator + convergence monitor (tolerance 0:
+         # never converges, never requests a stop) somewhere in the callback list
+         "sched": draw(st.booleans()), "lib_cbs": draw(st.sampled_from([None, None, "first", "last", "middle"]))}
     if draw(st.integers(0, 29)) == 0:
         c.update(N=draw(st.integers(1025, 1300)), B=draw(st.sampled_from([400, 500, 1000])), E=c["se"] + draw(st.integers(1, 2)))     # a large data set
     mode = draw(st.sampled_from(["none", "preset", "inject", "inject", "inject"]))
@@ -244,9 +257,10 @@ def box(tier):
         out.append(dict(base))
         out.append(dict(base, hooks_return=True, nbs=B + 2))
         out.append(dict(base, nbs=max(1, B - 1)))
+        out.append(dict(base, sched=True))
         out.append(dict(base, preset=True))
         for j in range(nev):
-            out.append(dict(base, stop_at=j))
+            out.append(dict(base, stop_at=j, sched=bool(j % 2), lib_cbs=[None, "first", "last"][j % 3]))
     return out
 
 
